@@ -44,6 +44,7 @@ type GRemoteAccess struct {
 	PoolName string
 	PoolDef  string
 	WebVPN   bool // also in certificate-group-map of webvpn
+	UseTG    string // device only: bound to the tunnel-group of another entry; own objects absent
 }
 
 const certEKU = "extended-key-usage co 1.3.6.1.4.1.311.20.2.2"
@@ -177,6 +178,14 @@ func (v *GVPN) Text() string {
 	}
 	poolSeen := map[string]bool{}
 	for _, r := range v.RA {
+		if r.UseTG != "" {
+			fmt.Fprintf(&b, "crypto ca certificate map %s %d\n subject-name attr ea co %s\n", r.CertMap, r.Seq, r.Subject)
+			for _, l := range r.CertSubs {
+				b.WriteString(" " + l + "\n")
+			}
+			fmt.Fprintf(&b, "tunnel-group-map %s %d %s\n", r.CertMap, r.Seq, r.UseTG)
+			continue
+		}
 		printACL(&b, r.Split, true)
 		printACL(&b, r.Filter, false)
 		fmt.Fprintf(&b, "crypto ca certificate map %s %d\n subject-name attr ea co %s\n", r.CertMap, r.Seq, r.Subject)
@@ -216,7 +225,11 @@ func (v *GVPN) Text() string {
 				b.WriteString("webvpn\n")
 				web = true
 			}
-			fmt.Fprintf(&b, " certificate-group-map %s %d %s\n", r.CertMap, r.Seq, r.TG)
+			tg := r.TG
+			if r.UseTG != "" {
+				tg = r.UseTG
+			}
+			fmt.Fprintf(&b, " certificate-group-map %s %d %s\n", r.CertMap, r.Seq, tg)
 		}
 	}
 	for _, u := range v.Users {
@@ -325,7 +338,26 @@ func (g *Gen) EditVPN(v *GVPN) string {
 	if v == nil {
 		return ""
 	}
-	switch g.Rng.Intn(18) {
+	switch g.Rng.Intn(19) {
+	case 18: // two certificate maps share one tunnel-group on device; the target has one each
+		if len(v.RA) > 1 && v.RA[0].UseTG == "" && v.RA[1].UseTG == "" {
+			r1, r2 := v.RA[0], v.RA[1]
+			if g.Rng.Intn(2) == 0 {
+				r1, r2 = r2, r1
+			}
+			for _, u := range v.Users {
+				if u.GP == r2.GP {
+					u.GP = r1.GP
+				}
+			}
+			r2.UseTG = r1.TG
+			if g.Rng.Intn(2) == 0 {
+				r2.Seq = []int{20, 30}[g.Rng.Intn(2)]
+				return "tunnel-group-shared-on-device+seq"
+			}
+			return "tunnel-group-shared-on-device"
+		}
+
 	case 17: // device numbers the certificate map differently; often with a changed sub-command
 		if len(v.RA) > 0 {
 			r := v.RA[g.Rng.Intn(len(v.RA))]
@@ -367,6 +399,11 @@ func (g *Gen) EditVPN(v *GVPN) string {
 					*p += sfx
 					gp[old] = *p
 				}
+			}
+		}
+		for _, r := range v.RA {
+			if n, ok := gp[r.UseTG]; ok {
+				r.UseTG = n
 			}
 		}
 		for _, u := range v.Users {
@@ -491,7 +528,11 @@ func (g *Gen) EditVPN(v *GVPN) string {
 			return "webvpn-map-toggled"
 		}
 	case 11: // remote access entry missing on device
-		if len(v.RA) > 0 {
+		shared := false
+		for _, r := range v.RA {
+			shared = shared || r.UseTG != ""
+		}
+		if len(v.RA) > 0 && !shared {
 			i := g.Rng.Intn(len(v.RA))
 			gp := v.RA[i].GP
 			v.RA = append(v.RA[:i], v.RA[i+1:]...)
